@@ -510,11 +510,12 @@ type modSet struct {
 	mapAt  map[string][]ssa.Value
 	whole  map[string]bool // component/map type also written through an unknown base
 	loop   *loopInfo       // the loop this set was computed for (nil for calls)
+	ghosts map[string]bool // ghost components written (through "modifies ghostname(x)" clauses of callees)
 }
 
 func newModSet() *modSet {
 	return &modSet{cells: map[*ssa.Alloc]bool{}, comps: map[string]types.Type{}, globals: map[*ssa.Global]bool{}, maps: map[string]types.Type{},
-		compAt: map[string][]ssa.Value{}, mapAt: map[string][]ssa.Value{}, whole: map[string]bool{}}
+		compAt: map[string][]ssa.Value{}, mapAt: map[string][]ssa.Value{}, whole: map[string]bool{}, ghosts: map[string]bool{}}
 }
 
 func (ex *Exec) loopModSet(fr *Frame, li *loopInfo) *modSet {
@@ -761,6 +762,11 @@ func (ex *Exec) callEffects(fn *ssa.Function, c *ssa.CallCommon, ms *modSet, bin
 				}
 			}
 		}
+		// any other function value (a field such as an option callback): the call itself is executed as an opaque,
+		// effect-free callback (callbackCall, an assumption listed in the evidence), so the loop summary agrees
+		if _, isClosure := c.Value.(*ssa.MakeClosure); !isClosure {
+			return
+		}
 		ms.allHeap = true
 		return
 	}
@@ -864,6 +870,27 @@ func (ex *Exec) contractEffects(ct *Contract, ms *modSet, callee *ssa.Function, 
 			ms.comps[comp] = ft
 			ms.whole[comp] = true
 			continue
+		}
+		// "ghostname(x)": only that ghost component changes
+		if gc, isCall := m.Expr.(ECall); isCall && len(gc.Args) == 1 {
+			var g *GhostDecl
+			switch f := gc.Fn.(type) {
+			case EIdent:
+				g = ex.prog.cs.Ghosts[ct.PkgPath+"."+f.Name]
+			case ESel:
+				if q, isQ := f.X.(EIdent); isQ {
+					for key, cand := range ex.prog.cs.Ghosts {
+						if cand.Name == f.Name && (cand.PkgPath == q.Name || strings.HasSuffix(cand.PkgPath, "/"+q.Name)) {
+							_ = key
+							g = cand
+						}
+					}
+				}
+			}
+			if g != nil {
+				ms.ghosts["$g:"+g.PkgPath+"."+g.Name] = true
+				continue
+			}
 		}
 		// "param" of map type: the map the argument refers to
 		if id, isId := m.Expr.(EIdent); isId && callee != nil {
@@ -1004,6 +1031,12 @@ func (ex *Exec) havocModSet(fr *Frame, st *State, ms *modSet, tag string) {
 			continue
 		}
 		st.heap[k] = vc.fresh("Hh_"+k+"_"+tag, ex.compSort(k))
+	}
+	for k := range ms.ghosts {
+		if _, known := vc.heapT[k]; !known {
+			continue // never read in this function: nothing to forget
+		}
+		st.ghost[k] = vc.fresh("Gh_"+mangle(trimCompPrefix(k))+"_"+tag, ex.compSort(k))
 	}
 	for g := range ms.globals {
 		ex.globalGet(st, g)
